@@ -296,12 +296,62 @@ def r07_6(run):
                "graph-cut" if w is None else f"null_grad can leave {a}")
 
 
+def r07_7(run):
+    """state handed to the internal ops created by _in_place_op (UnView / ApplyMask keyword arguments) must not capture a public
+    tensor of the view family (self / node.tensor / graph.base.tensor): the mutated public tensor's creator chain leads to that
+    op, so the capture closes a strong cycle  tensor -> creator -> op state -> tensor."""
+    fi = anchor_func(run, INPLACE)
+    fx = facts(run)
+    from . import opcontract
+    sites = [s for s in opcontract.op_sites(run) if s.fi.qualname == fi.qualname and s.op_cls is not None
+             and s.op_cls.module.name == "mygrad._utils.duplicating_graph"]
+    if not sites:
+        raise AnalysisError(f"{fi.short}: internal UnView/ApplyMask sites not found")
+
+    def expand(e, depth=0):
+        """all expressions that may flow into e (through single-assignment locals, .append on lists, call arguments)"""
+        out = [e]
+        if depth > 4:
+            return out
+        if isinstance(e, ast.Name):
+            for n in own_nodes(fi.node):
+                if isinstance(n, (ast.Assign, ast.AnnAssign)) and assigned_name(n) == e.id and getattr(n, "value", None) is not None:
+                    out += expand(n.value, depth + 1)
+                if isinstance(n, ast.Call) and isinstance(n.func, ast.Attribute) and n.func.attr in ("append", "extend", "insert") \
+                        and isinstance(n.func.value, ast.Name) and n.func.value.id == e.id:
+                    for a in n.args:
+                        out += expand(a, depth + 1)
+        elif isinstance(e, ast.Call):
+            for a in list(e.args) + [k.value for k in e.keywords]:
+                out += expand(a, depth + 1)
+        elif isinstance(e, (ast.List, ast.Tuple)):
+            for a in e.elts:
+                out += expand(a, depth + 1)
+        return out
+
+    for s in sites:
+        for key, val in (s.op_kwargs or {}).items():
+            flows = expand(val)
+            bad = []
+            for f in flows:
+                for x in ast.walk(f):
+                    if isinstance(x, ast.Attribute) and x.attr == "tensor":
+                        bad.append(norm(x))
+                    if isinstance(x, ast.Attribute) and isinstance(x.value, ast.Name) and x.value.id == "self" and x.attr.startswith("_replay"):
+                        bad.append(norm(x))
+            run.ob("R07.7", loc(fi, s.call), fi.short, f"state `{key}` given to internal op {s.op_cls.name}", not bad,
+                   f"{len(flows)} contributing expression(s); none references a public tensor (only placeholders / arrays)" if not bad else
+                   f"captures public tensor state ({bad[0]}): tensor -> creator -> {s.op_cls.name} -> tensor cycle, not freed by refcounting "
+                   f"(its finalizer never releases the locked arrays)")
+
+
 def check(run):
     run.rule("R07.1", "back-edges are weak: everything added to Tensor._ops is a weakref; _view_children is always a WeakRefIterable", floor=5)
     run.rule("R07.2", "no store onto an Operation instance (outside its own methods) holds the produced tensor strongly", floor=2)
     run.rule("R07.3", "arguments of weakref.finalize are containers of weak references", floor=2)
     run.rule("R07.4", "clear_graph: _ops/_view_children cleared on every call, creator dropped before recursing over all its variables", floor=5)
     run.rule("R07.5", "Tensor.backward (tracking on) reaches self.clear_graph() on every normal exit", floor=2)
+    run.rule("R07.7", "state handed to the internal UnView/ApplyMask ops captures placeholders/arrays only, never a public tensor", floor=2)
     run.rule("R07.6", "gradient-nulling sites: non-view ops, the backward traversal, in-place targets, null_grad", floor=7)
     r07_1(run)
     r07_2(run)
@@ -309,3 +359,4 @@ def check(run):
     r07_4(run)
     r07_5(run)
     r07_6(run)
+    r07_7(run)
